@@ -13,6 +13,7 @@ import sys
 
 PREFIXES = ["abcdefghij", "information_channel_code_", "Billing_Convention_", "prodüct_identifier_", "x", "the_quick_brown_fox_jumps_"]
 SAFE = "ghjkmnpqrstvwxyz"  # suffix alphabet: never forms "_<hex digits>" tails (those are produced by the library's own counters)
+NBIND_VALUE = 300000
 DIALECTS = ["default", "postgresql", "mysql", "sqlite", "oracle", "mssql"]
 
 TOKENS_COMMON = ["table_name", "column_0_name", "column_0N_name", "column_0_N_name", "column_0_label", "column_0N_label", "column_0_N_label",
@@ -318,6 +319,7 @@ def build_select(c):
         fvals.append(tvals[ti])
     cols, expected, explicit = [], [], set()
     seen = set()
+    cast_seen, n_excluded_casts = set(), 0
     for ii, it in enumerate(c["items"]):
         kind = it[0]
         if kind in ("col", "col_anon", "col_lbl", "expr", "expr_lbl"):
@@ -348,6 +350,23 @@ def build_select(c):
                 explicit.add(nm)
                 cols.append((colobj + (it[3] % 50)).label(nm))
                 expected.append(val + it[3] % 50)
+        elif kind == "cast":
+            # one CAST element repeated it[3] times (1-2 generated; 3 only in the pinned finding)
+            from sqlalchemy import cast
+
+            fi = it[1] % len(froms)
+            names = list(fvals[fi])
+            cn = names[it[2] % len(names)]
+            if not c.get("pinned") and (fi, cn) in cast_seen:
+                # known finding: the de-duplication label of CAST(col) ignores the occurrence index, so the column plus two
+                # casts of it (or one cast repeated) share "col__1"; only one cast per column is generated
+                n_excluded_casts += 1
+                continue
+            cast_seen.add((fi, cn))
+            ce = cast(froms[fi].c[cn], Integer)
+            for _ in range(max(1, min(3, it[3])) if c.get("pinned") else 1):
+                cols.append(ce)
+                expected.append(fvals[fi][cn])
         elif kind == "lit":
             cols.append(literal(100000 + ii))
             expected.append(100000 + ii)
@@ -359,21 +378,51 @@ def build_select(c):
     if not cols:
         cols.append(literal(424242))
         expected.append(424242)
+    # a user-named, non-unique bindparam whose name equals a compiler-generated anonymous bind name (resolved by the caller)
+    nb = c.get("nbind_resolved")
+    nb_crit = None
+    if nb:
+        from sqlalchemy import literal_column
+
+        V = NBIND_VALUE
+        bp = bindparam(nb["name"], type_=Integer) if nb.get("required") else bindparam(nb["name"], V, type_=Integer)
+        explicit.add(nb["name"])
+        pos = nb["pos"]
+        if pos == "select_first":
+            cols.insert(0, bp.label("NBsel"))
+            expected.insert(0, V)
+            explicit.add("NBsel")
+        elif pos == "select_last":
+            cols.append(bp.label("NBsel"))
+            expected.append(V)
+            explicit.add("NBsel")
+        elif pos in ("subq_first", "subq_last"):
+            nb_crit = literal_column(str(V)) == select(bp).scalar_subquery()
+        else:
+            nb_crit = literal_column(str(V)) == bp
     stmt = select(*cols).select_from(*froms)
+    if nb_crit is not None and nb["pos"] in ("first", "subq_first"):
+        stmt = stmt.where(nb_crit)
     nwhere = 0
     for w in c.get("where", []):
         fi = w[0] % len(froms)
         names = list(fvals[fi])
         cn = names[w[1] % len(names)]
-        stmt = stmt.where(froms[fi].c[cn] == fvals[fi][cn])
+        if len(w) > 2 and w[2]:
+            # expanding IN: anonymous "<col>_N" expanded to "<col>_N_1", "<col>_N_2" at execution time
+            stmt = stmt.where(froms[fi].c[cn].in_([fvals[fi][cn], 900000 + nwhere]))
+        else:
+            stmt = stmt.where(froms[fi].c[cn] == fvals[fi][cn])
         nwhere += 1
+    if nb_crit is not None and nb["pos"] in ("last", "subq_last"):
+        stmt = stmt.where(nb_crit)
     if c.get("style") == "tq":
         stmt = stmt.set_label_style(LABEL_STYLE_TABLENAME_PLUS_COL)
     real_names = set()
     for t in tables:
         real_names.add(t.name)
         real_names.update(cn.name for cn in t.columns)
-    return md, tables, tvals, stmt, expected, {"explicit": explicit, "real": real_names, "nwhere": nwhere}
+    return md, tables, tvals, stmt, expected, {"explicit": explicit, "real": real_names, "nwhere": nwhere, "excluded_casts": n_excluded_casts}
 
 
 def render_select(c, dialect):
